@@ -42,6 +42,9 @@ func simWait() {
 	synctest.Wait()
 	spinInWait.Store(false)
 	spinWaits.Add(1)
+	if w := spinWorld.Load(); w != nil {
+		w.flushEvents()
+	}
 }
 
 func cpuSeconds() float64 {
